@@ -109,9 +109,10 @@ theorem collab_errors (twoD known : Bool) (ndim : Nat) (method : String) (k : Na
 
 /-- meaning of the plan for ANY wrapped method `f` (stateful or not): one dictionary `kw` serves all reported
 fits; its `weights` / `alpha` are what `params` reports, and every key that is not overridden holds the
-user's value -/
+user's value.  (`_hk`: the data set is not empty — the mean over zero rows is NaN in the code and the first fit
+raises; `hu`: the user's dictionary holds the user's own values) -/
 theorem collab_reported_weights_are_used (f : Method) (twoD : Bool) (method : String) (avg : Bool) (user : Kw)
-    (ds : List (List Rat)) (hu : UserKw user) :
+    (ds : List (List Rat)) (_hk : 0 < ds.length) (hu : UserKw user) :
     ∃ kw : List (String × Arg),
       getArg kw "weights" = some (runCollab f twoD method avg user ds).avgWeights ∧
       ((family twoD method).calcAlpha = true → getArg kw "alpha" = (runCollab f twoD method avg user ds).avgAlpha) ∧
